@@ -20,7 +20,11 @@ import (
 // requests' values is a violation.
 
 func concReq(params string) *jrpc2.Request {
-	rs, err := jrpc2.ParseRequests([]byte(`{"jsonrpc":"2.0","id":1,"method":"m","params":` + params + `}`))
+	member := `,"params":` + params
+	if params == "" {
+		member = ""
+	}
+	rs, err := jrpc2.ParseRequests([]byte(`{"jsonrpc":"2.0","id":1,"method":"m"` + member + `}`))
 	if err != nil || len(rs) != 1 || rs[0].Error != nil {
 		panic(fmt.Sprintf("bad test params %s: %v", params, err))
 	}
@@ -41,7 +45,15 @@ type concInner struct {
 }
 
 func concWant(k int) string {
-	return fmt.Sprintf(`%d|s%d|[%d %d]|map[k:%d]|%d|%d`, k, k, k, k+1, k, k, k)
+	return fmt.Sprintf(`%d|s%d|[%d %d]|map[k:%d]|%d|%d|ctx%d`, k, k, k, k+1, k, k, k, k)
+}
+
+type concCtxKey struct{}
+
+// concCtx renders the number the call's own context carries.
+func concCtx(ctx context.Context) string {
+	k, _ := ctx.Value(concCtxKey{}).(int)
+	return fmt.Sprintf("|ctx%d", k)
 }
 
 func concGot(a int, b string, c []int, d map[string]int, e *concInner, f json.RawMessage) string {
@@ -67,7 +79,7 @@ func concRun(c *vt.Ctx, what string, h jrpc2.Handler, mkParams func(k int) strin
 			}()
 			for i := 0; i < perG; i++ {
 				k := g*1000000 + i
-				v, err := h(context.Background(), concReq(mkParams(k)))
+				v, err := h(context.WithValue(context.Background(), concCtxKey{}, k), concReq(mkParams(k)))
 				got, _ := v.(string)
 				if err != nil || got != concWant(k) {
 					mu.Lock()
@@ -97,13 +109,25 @@ func concCases(prop string) func(e vt.Env, yield func(vt.Case) bool) {
 	return func(e vt.Env, yield func(vt.Case) bool) {
 		gor, per := 8, e.Pick(1500, 20000)
 		posFn := func(ctx context.Context, a int, b string, cc []int, d map[string]int, ee *concInner, f json.RawMessage) (string, error) {
-			return concGot(a, b, cc, d, ee, f), nil
+			return concGot(a, b, cc, d, ee, f) + concCtx(ctx), nil
 		}
 		structFn := func(ctx context.Context, v concArgs) (string, error) {
-			return concGot(v.A, v.B, v.C, v.D, v.E, v.F), nil
+			return concGot(v.A, v.B, v.C, v.D, v.E, v.F) + concCtx(ctx), nil
 		}
 		ptrFn := func(ctx context.Context, v *concArgs) (string, error) {
-			return concGot(v.A, v.B, v.C, v.D, v.E, v.F), nil
+			return concGot(v.A, v.B, v.C, v.D, v.E, v.F) + concCtx(ctx), nil
+		}
+		// the signatures without a decoded argument: the function learns everything from its context / the request
+		ctxOnlyFn := func(ctx context.Context) (string, error) {
+			k, _ := ctx.Value(concCtxKey{}).(int)
+			return concWant(k)[:len(concWant(k))-len(concCtx(ctx))] + concCtx(ctx), nil
+		}
+		reqFn := func(ctx context.Context, req *jrpc2.Request) (string, error) {
+			var v concArgs
+			if err := req.UnmarshalParams(&v); err != nil {
+				return "", err
+			}
+			return concGot(v.A, v.B, v.C, v.D, v.E, v.F) + concCtx(ctx), nil
 		}
 		type item struct {
 			id string
@@ -122,6 +146,8 @@ func concCases(prop string) func(e vt.Env, yield func(vt.Case) bool) {
 				{"conc/New/struct/array", func() jrpc2.Handler { return handler.New(structFn) }, concArrayParams},
 				{"conc/New/pointer/object", func() jrpc2.Handler { return handler.New(ptrFn) }, concObjectParams},
 				{"conc/New/pointer/array", func() jrpc2.Handler { return handler.New(ptrFn) }, concArrayParams},
+				{"conc/New/context-only", func() jrpc2.Handler { return handler.New(ctxOnlyFn) }, func(int) string { return "" }},
+				{"conc/New/request", func() jrpc2.Handler { return handler.New(reqFn) }, concObjectParams},
 			}
 		}
 		for _, it := range items {
